@@ -373,16 +373,22 @@ Lemma use_fixture_spec fx s :
 Proof.
   unfold use_fixture, fixture_raise. cbn [act_log act_entries act_events]. unfold fixture_raise.
   destruct (fx_fail fx) as [e|].
-  - destruct (fx_old fx).
-    + cbn [fst snd]. split; [reflexivity|]. exists []. split; [|split; [reflexivity | simpl; lia]].
-      step_chain (eapply step_trans; [apply step_log | apply dstep_step, ds_gather]).
-    + destruct (run_fx_cleanups_spec (fx_cleanups fx) (add_log [LTok (fx_tok fx)] s)) as [A B].
-      destruct (run_fx_cleanups _ _) as [s2 errs]. cbn [fst snd] in *. subst errs.
-      split; [reflexivity|]. exists []. split; [|split; [reflexivity | simpl; lia]].
-      assert (Hc : cells s2 = cells (add_log [LTok (fx_tok fx)] s)).
-      { destruct A as [_ _ _ _ _ _ _ A8]. apply (f_equal d_cells) in A8. exact A8. }
-      step_chain (eapply step_trans; [apply step_log|]; eapply step_trans;
-                  [exact A | apply dstep_step; unfold fx_source; apply ds_gather_snap; exact Hc]).
+  - destruct (fx_eval_raise fx) as [g|].
+    + (* a detail cannot be evaluated: what was gathered before it, the traceback, the new exception *)
+      cbn [fst snd]. split; [reflexivity|]. exists []. split; [|split; [reflexivity | simpl; lia]].
+      destruct (fx_old fx);
+        step_chain (eapply step_trans; [apply step_log|]; eapply step_trans;
+                    [apply dstep_step, ds_gather | apply dstep_step, ds_tb]).
+    + destruct (fx_old fx).
+      * cbn [fst snd]. split; [reflexivity|]. exists []. split; [|split; [reflexivity | simpl; lia]].
+        step_chain (eapply step_trans; [apply step_log | apply dstep_step, ds_gather]).
+      * destruct (run_fx_cleanups_spec (fx_cleanups fx) (add_log [LTok (fx_tok fx)] s)) as [A B].
+        destruct (run_fx_cleanups _ _) as [s2 errs]. cbn [fst snd] in *. subst errs.
+        split; [reflexivity|]. exists []. split; [|split; [reflexivity | simpl; lia]].
+        assert (Hc : cells s2 = cells (add_log [LTok (fx_tok fx)] s)).
+        { destruct A as [_ _ _ _ _ _ _ A8]. apply (f_equal d_cells) in A8. exact A8. }
+        step_chain (eapply step_trans; [apply step_log|]; eapply step_trans;
+                    [exact A | apply dstep_step; unfold fx_source, fx_events; apply ds_gather_snap; exact Hc]).
   - cbn [fst snd]. split; [reflexivity|]. exists [KGather fx; KFxClean fx].
     split; [|split; [reflexivity | simpl; lia]].
     step_chain (eapply step_trans; [apply step_log|]; eapply step_trans; apply step_push; exact I).
